@@ -132,8 +132,8 @@ def runScriptWith {σ} (I : Iface σ) (s0 : σ) (parts : List (String × List St
   match parts.lookup "main" with
   | none => "bad-case"
   | some main =>
-    let (_, out, st) := execStmts I parts 10000 s0 main []
-    " | ".intercalate (out.reverse ++ [if st = .ok then "@END" else "abort"])
+    let (s', out, st) := execStmts I parts 10000 s0 main []
+    " | ".intercalate (out.reverse ++ [endLine I s' st])
 
 def runScript (body : String) : String :=
   match ((splitTrim body ";").filter (· ≠ "")).mapM parsePart with
@@ -141,7 +141,38 @@ def runScript (body : String) : String :=
   | some parts =>
     runScriptWith ifaceM VariableSet.new parts ++ "\t=" ++ runScriptWith ifaceS SSet.new parts
 
+/-! ### `rop K`: a path of a built-in outside the anchors (`cd`, `getopts`) or an assignment that writes a
+    read-only variable with a special name.  (setup after `init`, the operations the path attempts — all
+    `get_or_new(name, Global)` + assign / unset —, what is reported when one of them is refused, the
+    names observed).  The statuses are those of the built-ins (`cd` 1, `getopts` 2, an assignment error
+    ends the shell with 2); what the model contributes is that every refused operation leaves the
+    variable as it was and that the others are still performed. -/
+def ropTable : List (String × List Op × List Op × String × List Name) :=
+  let ro (n : Name) := Op.readonly n .global 1
+  let as (n : Name) (v : String) := Op.assign n .global (.scalar v) none
+  [("cdpwd", [as "PWD" "0", .export "PWD" .global true, ro "PWD"], [as "PWD" "/"], "r1", ["PWD"]),
+   ("cdold", [as "OLDPWD" "0", ro "OLDPWD"], [as "OLDPWD" "0"], "r1", ["OLDPWD"]),
+   ("optind", [ro "OPTIND"], [as "o" "a", as "OPTIND" "2"], "r2", ["OPTIND", "o"]),
+   ("optarg", [as "OPTARG" "0", ro "OPTARG"], [as "o" "a", as "OPTARG" "v"], "r2", ["OPTARG", "o"]),
+   ("optargu", [as "OPTARG" "0", ro "OPTARG"], [as "o" "a", .unset "OPTARG" .global], "r2", ["OPTARG", "o"]),
+   ("linenoas", [ro "LINENO"], [as "LINENO" "5"], "x2", ["LINENO"])]
+
+def runRopWith {σ} (I : Iface σ) (s0 : σ) (k : String) : String :=
+  match ropTable.find? (·.1 = k) with
+  | none => "bad-case"
+  | some (_, setup, attempt, onRefusal, names) =>
+    let s1 := (setup.foldl (fun s op => (I.step s op).1) s0)
+    let r := foldErrors (fun s op => match I.step s op with
+      | (s', .readOnly _) => (s', true)
+      | (s', _) => (s', false)) attempt (s1, 0)
+    " | ".intercalate ((if r.2 = 0 then "r0" else onRefusal) :: names.map fun n => s!"{n}={showV (I.get r.1 n)}")
+
+def runRop (k : String) : String :=
+  runRopWith ifaceM VariableSet.new.init k ++ "\t=" ++ runRopWith ifaceS SSet.new.init k
+
 def runLine (line : String) : String :=
-  if line.startsWith "sh " then runScript (line.drop 3).toString else runHistory line
+  if line.startsWith "sh " then runScript (line.drop 3).toString
+  else if line.startsWith "rop " then runRop (line.drop 4).toString.trimAscii.toString
+  else runHistory line
 
 def main : IO Unit := mainLoop runLine
